@@ -228,13 +228,13 @@ def truthy {α} : Option (List α) → Bool
   | some (_ :: _) => true
   | _ => false
 
-/-- `ProFormaAnnotation.split()`: labile mods are popped, every residue is a one-residue slice of the rest,
-the first piece gets the labile mods back -/
+/-- `ProFormaAnnotation.split()` (after the C08 fix 2a2eb0d, which no longer pops the labile mods of `self`): every residue
+is a one-residue slice; `pop_labile_mods()` on every piece except the first (and on the first too when the labile list is
+falsy) -/
 def split (a : Annotation) : List Annotation :=
-  let a' := { a with labile := none }
   (List.range a.seq.length).map fun (i : Nat) =>
-    let s := slice a' (i : Int) ((i : Int) + 1)
-    if i = 0 ∧ truthy a.labile then { s with labile := a.labile } else s
+    let s := slice a (i : Int) ((i : Int) + 1)
+    if i ≠ 0 ∨ !truthy a.labile then { s with labile := none } else s
 
 /-! ### digestion: annotation return type -/
 
